@@ -16,6 +16,7 @@ func init() {
 	Registry["C12"] = func(c *Ctx) {
 		c.R.NotDecided = append(c.R.NotDecided, "'returns within its timeouts' as timing; 'reports that failure from subsequent calls' as behaviour over call histories; bounds-check freedom of the parsers is decided by the NO-PANIC rule where armed")
 		panicReachRule(c, "C12/PANIC-REACH", "client", 18)
+		optionalComponentRule(c, "C12/OPTIONAL-COMPONENT", []ocCfg{{"C12", "clientFormat", "rtpReceiver", "Client", "clientState"}, {"C12", "clientFormat", "rtpSender", "Client", "clientState"}}, 8)
 		nilGuardRule(c, "C12/NIL-GUARD", 15)
 		discardedErrRule(c, "C12/DISCARDED-ERR", []string{"", "pkg/description", "pkg/auth"}, 5)
 		replyPairingRule(c, "C12/REPLY-PAIRING", 7, []string{"Client.runInner"}, nil)
